@@ -240,7 +240,7 @@ func c07(args []string) {
 		switch j.kind {
 		case "oversize":
 			out := res.Output()
-			refused := res.Exit != 0 && !res.Returned && res.Hang == "" && strings.Contains(out, "can't be greater than maxConcurrentTasks")
+			refused := res.Exit != 0 && !res.Returned && res.Hang == "" // (not judged by the wording of the message)
 			started := 0
 			for k := range ti.Starts {
 				if strings.HasPrefix(k, "w1|") {
